@@ -14,7 +14,9 @@ From Omega Require Import L6Syntax.Tokens L6Syntax.Lexer L6Syntax.Parser
   L6Syntax.AgreeSpec
   L6Syntax.TableChecksProofs L6Syntax.ParserProofs L6Syntax.Gr1SplitProofs
   L6Syntax.LexerProofs L6Syntax.RoundtripProofs L6Syntax.AgreeProofs
-  L6Syntax.SpellProofs.
+  L6Syntax.SpellProofs
+  L6Syntax.PrecFullSpec L6Syntax.PrecFullProofs L6Syntax.PrecConverse
+  L6Syntax.PrecFullInj.
 From OmegaGen Require Import C16_Tables C16_Inst.
 Local Open Scope string_scope.
 
@@ -157,6 +159,160 @@ Example C16_wrong_grouping_rejected :
          (SBin (Tok "UNTIL" "U") (SAtom (AVar "a")) (SAtom (AVar "b")))
          (SAtom (AVar "c")))).
 Proof. vm_compute. intros [_ [H _]]. discriminate. Qed.
+
+(* ------------------------------------------------------------------ *)
+(* prec_determines_tree for the WHOLE grammar of the parser model, and its
+   converse.  Surface trees `xt` (PrecFullSpec.v) carry every token of the
+   sequence and cover, besides the forms above, LET ... IN, junction lists
+   (/\ a /\ b \/ c), truncation `x <<>> n`, `@ n`, quantifiers over
+   arbitrary expression lists; `list xunit` is the module level
+   (VARIABLE(S)/CONSTANT(S) declarations and definitions). *)
+
+(* side conditions for the generated table: PrecSpec.table_ok, AND / OR are
+   not prefix operators, NAME and IN are not operators *)
+Theorem C16_table_ok_full_bounded : table_ok_full PT = true.
+Proof. vm_compute. reflexivity. Qed.
+
+(* for EVERY surface tree of the whole expression grammar whose tokens have
+   the types their positions demand (xwf) and which groups its operators as
+   the table demands (xrespects), the parser applied to its token sequence
+   returns exactly the tree it denotes.  Unbounded: mutual induction. *)
+Theorem C16_prec_determines_tree_full : forall s : xt,
+  xwf PT s -> xrespects PT s -> parse PT (xyield s) = Some (xerase PT s).
+Proof. exact (prec_determines_tree_full PT C16_table_ok_full_bounded). Qed.
+
+(* the same at the module level *)
+Theorem C16_prec_determines_module : forall us : list xunit,
+  mwf PT us -> mrespects PT us -> parse PT (myield us) = Some (merase PT us).
+Proof. exact (prec_determines_module PT C16_table_ok_full_bounded). Qed.
+
+(* THE CONVERSE: every token sequence the parser accepts (any tokens, any
+   values) is the token sequence of a well-formed surface tree that groups
+   its operators as the table demands, and the tree returned is the tree
+   that surface tree denotes.  Unbounded: induction on the parser's fuel
+   through every branch; holds for every operator table. *)
+Theorem C16_parse_is_respecting_tree : forall (ts : list token) (t : tree),
+  is_module_start ts = false -> parse PT ts = Some t ->
+  exists s : xt, xwf PT s /\ xrespects PT s /\ xyield s = ts /\ xerase PT s = t.
+Proof. exact (parse_is_respecting_tree PT). Qed.
+
+Theorem C16_parse_is_respecting_module : forall (ts : list token) (t : tree),
+  is_module_start ts = true -> parse PT ts = Some t ->
+  exists us : list xunit,
+    mwf PT us /\ mrespects PT us /\ myield us = ts /\ merase PT us = t.
+Proof. exact (parse_is_respecting_module PT). Qed.
+
+(* both directions: the parser accepts ts and returns t  IFF  ts is the
+   token sequence of a table-respecting surface tree denoting t *)
+Theorem C16_prec_tree_iff : forall (ts : list token) (t : tree),
+  is_module_start ts = false ->
+  (parse PT ts = Some t <->
+   exists s : xt, xwf PT s /\ xrespects PT s /\ xyield s = ts /\ xerase PT s = t).
+Proof. exact (prec_tree_iff PT C16_table_ok_full_bounded). Qed.
+
+Theorem C16_prec_module_iff : forall (ts : list token) (t : tree),
+  is_module_start ts = true ->
+  (parse PT ts = Some t <->
+   exists us : list xunit,
+     mwf PT us /\ mrespects PT us /\ myield us = ts /\ merase PT us = t).
+Proof. exact (prec_module_iff PT C16_table_ok_full_bounded). Qed.
+
+(* uniqueness over the whole grammar *)
+Theorem C16_respecting_tree_unique_full : forall s1 s2 : xt,
+  xwf PT s1 -> xrespects PT s1 -> xwf PT s2 -> xrespects PT s2 ->
+  xyield s1 = xyield s2 -> xerase PT s1 = xerase PT s2.
+Proof. exact (respecting_tree_unique_full PT C16_table_ok_full_bounded). Qed.
+
+(* the surface trees of C16_prec_determines_tree are surface trees of the
+   whole grammar: same tokens, same denoted tree, wf and respects kept *)
+Theorem C16_full_generalises : forall s : stree,
+  wf PT s -> respects PT s ->
+  xwf PT (inj s) /\ xrespects PT (inj s) /\ xyield (inj s) = yield s
+  /\ xerase PT (inj s) = erase PT s.
+Proof.
+  exact (fun s W R => conj (inj_wf PT s W) (conj (inj_respects PT s W R)
+           (conj (inj_yield PT s W) (inj_erase PT s W)))).
+Qed.
+
+(* non-vacuity with LET, a junction list, `<<>>` and `@`:
+   LET f == a /\ b IN /\ f \/ c <<>> 2 => @ 3
+   groups as ((LET .. IN (/\ f \/ c)) <<>> 2) => (@ 3) *)
+Definition ex_x : xt :=
+  XBin (Tok "IMPLIES" "=>")
+    (XTrunc (Tok "TRUNCATE" "<<>>")
+       (XLet (Tok "LET" "LET")
+          (D1 (Tok "NAME" "f") (Tok "DEF" "==")
+              (XBin (Tok "AND" "/\") (XName (Tok "NAME" "a")) (XName (Tok "NAME" "b"))))
+          (Tok "IN_EXPR" "IN")
+          (XJunc (JS (J1 (Tok "AND" "/\") (XName (Tok "NAME" "f")))
+                     (Tok "OR" "\/") (XName (Tok "NAME" "c")))))
+       (XPos (Tok "NUMBER" "2")))
+    (XAt (Tok "AT" "@") (XPos (Tok "NUMBER" "3"))).
+Example C16_prec_determines_tree_full_ex :
+  xwf PT ex_x /\ xrespects PT ex_x /\
+  LEX "LET f == a /\ b IN /\ f \/ c <<>> 2 => @ 3" = Some (xyield ex_x) /\
+  parse PT (xyield ex_x)
+  = Some (Bin CBinary "=>"
+            (Bin CArithmetic "<<>>"
+               (Opr "LET"
+                  [Lst [Bin CBinary "==" (Term KOpname "f")
+                          (Bin CBinary "/\" (Term KVar "a") (Term KVar "b"))];
+                   Bin CBinary "\/" (Term KVar "f") (Term KVar "c")])
+               (Term KNum "2"))
+            (Opr "@" [Term KNum "3"])).
+Proof.
+  assert (W : xwf PT ex_x)
+    by (vm_compute; repeat split;
+        first [discriminate | reflexivity | left; reflexivity | right; reflexivity]).
+  assert (R : xrespects PT ex_x) by (vm_compute; repeat split).
+  split; [exact W | split; [exact R | split; [vm_compute; reflexivity|]]].
+  rewrite (C16_prec_determines_tree_full ex_x W R). reflexivity.
+Qed.
+
+(* a junction list is continued by /\ whatever the context: reading
+   `/\ a /\ b` as the infix conjunction of the list `/\ a` and b does not
+   respect the table *)
+Example C16_wrong_junction_grouping_rejected :
+  ~ xrespects PT (XBin (Tok "AND" "/\")
+       (XJunc (J1 (Tok "AND" "/\") (XName (Tok "NAME" "a"))))
+       (XName (Tok "NAME" "b"))).
+Proof. vm_compute. intros [_ [_ [[H _] _]]]. discriminate. Qed.
+
+(* non-vacuity at the module level *)
+Definition ex_m : list xunit :=
+  [UDecl (Tok "VARIABLES" "VARIABLES")
+     (LS (XName (Tok "NAME" "x")) (Tok "COMMA" ",") (L1 (XName (Tok "NAME" "y"))));
+   UDef (Tok "NAME" "f") (Tok "DEF" "==")
+     (XBin (Tok "PLUS" "+") (XPost (Tok "PRIME" "'") (XName (Tok "NAME" "x")))
+           (XNum (XPos (Tok "NUMBER" "1"))));
+   UDecl (Tok "CONSTANT" "CONSTANT") (L1 (XName (Tok "NAME" "c")))].
+Example C16_prec_determines_module_ex :
+  mwf PT ex_m /\ mrespects PT ex_m /\
+  LEX "VARIABLES x, y f == x' + 1 CONSTANT c" = Some (myield ex_m) /\
+  parse PT (myield ex_m)
+  = Some (Lst [Opr "VARIABLES" [Lst [Term KVar "x"; Term KVar "y"]];
+               Bin CBinary "==" (Term KOpname "f")
+                 (Bin CArithmetic "+" (Un "X" (Term KVar "x")) (Term KNum "1"));
+               Opr "CONSTANT" [Lst [Term KVar "c"]]]).
+Proof.
+  assert (W : mwf PT ex_m).
+  { split; [discriminate|]. repeat constructor; vm_compute; auto; discriminate. }
+  assert (R : mrespects PT ex_m) by (vm_compute; repeat split).
+  split; [exact W | split; [exact R | split; [vm_compute; reflexivity|]]].
+  rewrite (C16_prec_determines_module ex_m W R). reflexivity.
+Qed.
+
+(* the converse at work: from the parser's answer alone one obtains a
+   surface tree of the sentence *)
+Example C16_parse_is_respecting_tree_ex :
+  exists s : xt, xwf PT s /\ xrespects PT s /\ xyield s = xyield ex_x
+                 /\ PS "LET f == a /\ b IN /\ f \/ c <<>> 2 => @ 3" = Some (xerase PT s).
+Proof.
+  destruct (C16_parse_is_respecting_tree (xyield ex_x) (xerase PT ex_x) eq_refl
+              (proj2 (proj2 (proj2 C16_prec_determines_tree_full_ex))))
+    as [s [W [R [Ey Ee]]]].
+  exists s. repeat split; try assumption. rewrite Ee. vm_compute. reflexivity.
+Qed.
 
 (* ------------------------------------------------------------------ *)
 (* The DOCUMENTED table determines the tree.  PTdoc is the operator table
@@ -422,6 +578,15 @@ Print Assumptions C16_spellings_normalised_bounded.
 Print Assumptions C16_synonyms_same_opmap_bounded.
 Print Assumptions C16_prec_determines_tree.
 Print Assumptions C16_respecting_tree_unique.
+Print Assumptions C16_table_ok_full_bounded.
+Print Assumptions C16_prec_determines_tree_full.
+Print Assumptions C16_prec_determines_module.
+Print Assumptions C16_parse_is_respecting_tree.
+Print Assumptions C16_parse_is_respecting_module.
+Print Assumptions C16_prec_tree_iff.
+Print Assumptions C16_prec_module_iff.
+Print Assumptions C16_respecting_tree_unique_full.
+Print Assumptions C16_full_generalises.
 Print Assumptions C16_doc_table_determines_tree.
 Print Assumptions C16_roundtrip.
 Print Assumptions C16_spellings_partial.
